@@ -50,9 +50,10 @@ SCORE_KINDS = ["plain", "pos", "sci", "pval", "mixed", "count", "binary"]
 
 
 def _hit(rnd, uid, opt, scores, n_mods=None, alts=None, prot=None, pep=None):
-    pep = pep or "".join(rnd.choice(AA) for _ in range(rnd.randint(3, 9)))
+    pep = pep or "".join(rnd.choice(AA) for _ in range(rnd.randint(3, 9) if rnd.random() < 0.5
+                                                       else rnd.randint(10, 25)))
     if n_mods is None:
-        n_mods = rnd.randint(0, min(3, len(pep)))
+        n_mods = rnd.randint(0, min(4, len(pep)))
     pos = sorted(rnd.sample(range(1, len(pep) + 1), n_mods))
     mods = [[p, rnd.choice(["357.2579", "160.0307", "147.0354", "15.99", "115", "1045.123456", "0.984"])]
             for p in pos]
@@ -121,6 +122,18 @@ def grid_specs():
                     sp = {"scan": 8, "z": 2, "rt": "123.372", "mass": "989.6051", "hits": [hit]}
                     run = {"file": "grid.mzXML", "ext": ".mzXML", "base_has_ext": False, "spectra": [sp]}
                     yield {"opt": {"ns": True, "nmc": True}, "files": [[run]]}
+    # every pair and a spread of triples of modified positions of a 12-residue peptide (multi-digit positions)
+    pep = "ACDEFGHIKLMN"
+    combos = list(itertools.combinations(range(1, 13), 2)) + \
+        [c for c in itertools.combinations(range(1, 13), 3) if c[0] in (1, 2, 9) and c[2] >= 10]
+    for pos in combos:
+        masses = ["147.0354", "357.2579", "9"]
+        hit = {"pep": pep, "prot": TARGET_ACC[0], "alts": [], "calc": "1500.1234",
+               "mods": [[p, masses[j]] for j, p in enumerate(pos)],
+               "scores": {"hyperscore": "14.534", "expect": "1.768e+00"}, "nmc": 1}
+        sp = {"scan": 9, "z": 2, "rt": "123.372", "mass": "1989.6051", "hits": [hit]}
+        run = {"file": "grid.mzXML", "ext": ".mzXML", "base_has_ext": False, "spectra": [sp]}
+        yield {"opt": {"ns": True, "nmc": True}, "files": [[run]]}
 
 
 def _attrs(d):
@@ -369,9 +382,10 @@ def check_hits(tier, seed):
     n = 350 if tier == "quick" else 6000
     ck = Check("pepxml_hits", "mokapot.parsers.pepxml.read_pepxml",
                "exhaustive: 1-hit documents, all 14 target/decoy patterns over primary + 0..2 alternative proteins x "
-               "all 15 sets of 0..3 modified positions of a 4-residue peptide (210 documents); random: %d documents "
-               "with seed %d: 1..2 files x 1..2 runs x 1..3 spectra x 1..3 hits, peptides of 3..9 residues, 0..3 "
-               "modifications at ascending positions, 0..2 alternative proteins, 0..4 search scores of 7 value kinds, "
+               "all 15 sets of 0..3 modified positions of a 4-residue peptide (210 documents), all 66 pairs and 54 "
+               "triples (first in {1,2,9}, last >= 10) of modified positions of a 12-residue peptide; random: %d "
+               "documents with seed %d: 1..2 files x 1..2 runs x 1..3 spectra x 1..3 hits, peptides of 3..25 "
+               "residues, 0..4 modifications at ascending positions, 0..2 alternative proteins, 0..4 search scores of 7 value kinds, "
                "optional attributes/elements/namespace present or absent" % (n, seed),
                "spec -> PepXML text -> read_pepxml(to_df=True); oracle derived from the spec (rows matched to hits by "
                "the unique calc mass); non-trivial = some hit has >= 2 modifications or an alternative protein, or the "
